@@ -245,7 +245,7 @@ func definitelyNonNil(v ssa.Value, depth int) bool {
 		if f := v.Common().StaticCallee(); f != nil && f.Blocks != nil && f.Signature.Results().Len() == 1 {
 			ok := true
 			for _, r := range returnsOf(f) {
-				if !definitelyNonNil(r.Results[0], depth+1) {
+				if !definitelyNonNil(res(r, 0), depth+1) {
 					ok = false
 				}
 			}
